@@ -5,4 +5,7 @@ MCAlphabet == {"P","DIV","H","T","t","INL","A","UL","LI","BQ","IMG","VID","EMB",
 MCRoots    == {"P","DIV","H","T","UL","BQ","IMG","VID","EMB","TW","FIG","FIGL","DT","LT","LNK"}
 TblAlphabet == {"LT", "DT", "T", "t", "IMG", "INL", "A", "P", "SHR", "CMT", "DIV"}
 TblRoots    == {"LT", "DT", "T", "DIV"}
+\* list items holding blocks next to bare text and inline elements: one text block whose clone has block children
+LiAlphabet == {"UL", "LI", "DIV", "P", "H", "T", "INL", "A", "BR"}
+LiRoots    == {"UL"}
 ====
